@@ -12,7 +12,7 @@ import (
 func init() { Registry["C16"] = checkC16 }
 
 func checkC16(p *core.Prog, r *core.Report) {
-	r.Explanation = "Decides structural necessary conditions of state-preserving compaction: (R1) the replacement snapshot is published (rewrite.aof.tmp renamed into place) before any compaction input is removed, and during a compaction files are removed only in its commit step; (R2) compactions are serialised by a test-and-set of isRewriting under the Aof mutex, cleared again on every exit (deferred function); (R3) an append file becomes a compaction input only if its index is strictly behind the current append file's (wrap-aware); (R4) the compaction callback drops a record only when its database is gone or LockDB.HasLock says the hold no longer exists - every other record is appended, with its value blob iff it announces one; (R5) the commit step runs only after the load returned no error, and the temporary file is flushed and closed before that; (R6) replay quiescence - the condition the start-up compaction waits for - is decided (flush waiters released, WaitFlushAofChannel returning without waiting) only on paths that read the replay channels' queue counters, because a channel that was handed records but has not woken up yet is not in the active count (a real defect found by this rule's subject was repaired); (R7) every list of log files built from FindAofFiles puts the snapshot before the append files (the list is the read and re-write order). NOT decided: equality of the recovered state before/after, appends racing a compaction, every intermediate directory image."
+	r.Explanation = "Decides structural necessary conditions of state-preserving compaction: (R1) the replacement snapshot is published (rewrite.aof.tmp renamed into place) before any compaction input is removed, and during a compaction files are removed only in its commit step; (R2) compactions are serialised by a test-and-set of isRewriting under the Aof mutex, cleared again on every exit (deferred function); (R3) an append file becomes a compaction input only if its index is strictly behind the current append file's (wrap-aware); (R4) the compaction callback drops a record only when its database is gone or LockDB.HasLock says the hold no longer exists - every other record is appended, with its value blob iff it announces one; (R5) the commit step runs only after the load returned no error, and the temporary file is flushed and closed before that; (R6) replay quiescence - the condition the start-up compaction waits for - is decided (flush waiters released, WaitFlushAofChannel returning without waiting) only on paths that read the replay channels' queue counters, because a channel that was handed records but has not woken up yet is not in the active count (a real defect found by this rule's subject was repaired); (R7) every list of log files built from FindAofFiles puts the snapshot before the append files (the list is the read and re-write order). (R8) LockDB.HasLock, the classifier compaction uses, answers \"gone\" for a record that is not a LOCK record only when the key has no manager, nothing is held, or no hold with the record's id exists. NOT decided: equality of the recovered state before/after, appends racing a compaction, every intermediate directory image."
 	r.Assumptions = []string{"Go type checker, go/ssa and VTA call graph are correct for /repo", "os.Rename replaces its target atomically"}
 	c16R1(p, r)
 	c16R2(p, r)
@@ -21,6 +21,7 @@ func checkC16(p *core.Prog, r *core.Report) {
 	c16R5(p, r)
 	c16R6(p, r)
 	logFileOrderRule(p, r, "C16/R7")
+	c16R8(p, r)
 }
 
 // reachesRemove: does fn (transitively, by static calls in the module) call os.Remove / os.RemoveAll?
@@ -633,4 +634,65 @@ func pathArg(x *core.X, ins ssa.Instruction, i int) string {
 		}
 	}
 	return x.Canon(args[i]).S
+}
+
+// c16R8: compaction keeps a record iff LockDB.HasLock says its hold still
+// exists. Only a LOCK record carries terms and a value that can be compared
+// with the live hold (and be found superseded); every other record of a
+// still-held id (a partial release, an unlock followed by a re-acquire under
+// the same id) is needed by the replay to reach the right depth and terms.
+// So outside the LOCK-record comparison the only reasons to answer "gone" are:
+// no manager, nothing held on the key, no hold with that id.
+func c16R8(p *core.Prog, r *core.Report) {
+	const rule = "C16/R8"
+	r.Rule(rule, "LockDB.HasLock answers false for a record that is not a LOCK record only when the key has no manager, nothing is held on it, or no hold with the record's id exists", 2)
+	fn := mustFunc(p, r, "server.(*LockDB).HasLock")
+	if fn == nil {
+		return
+	}
+	cmd := fn.Params[1].Name()
+	lockType := "1"
+	if v, ok := constGroup(p, "protocol", "COMMAND_")["COMMAND_LOCK"]; ok {
+		lockType = fmt.Sprint(v)
+	}
+	n := 0
+	ex := core.NewExplorer(p, core.Hooks{
+		Track: func(x *core.X, a core.Atom) bool { return true },
+		Exit: func(x *core.X, rets []core.Expr) {
+			if len(rets) != 1 || rets[0].S != "false" {
+				return
+			}
+			n++
+			cause, lockArm := "", false
+			for h := range x.St.Hist {
+				h = core.Plain(h)
+				switch {
+				case strings.HasPrefix(h, "GetLockManager(") && strings.HasSuffix(h, " == nil") && !strings.Contains(h, ")."):
+					cause = "no manager for the key"
+				case strings.HasPrefix(h, "GetLockManager(") && strings.HasSuffix(h, ".locked == 0"):
+					cause = "nothing held on the key"
+				case strings.HasPrefix(h, "GetLockedLock(") && strings.HasSuffix(h, " == nil") && !strings.Contains(h[strings.LastIndex(h, ")"):], "."):
+					cause = "no hold with the record's id"
+				case strings.HasPrefix(h, cmd+".") && strings.HasSuffix(h, "CommandType == "+lockType):
+					lockArm = true
+				}
+			}
+			key := "server.(*LockDB).HasLock: record reported gone"
+			switch {
+			case cause != "":
+				r.Hold(rule, key+" ("+cause+")", x.Pos(), cause)
+			case lockArm:
+				r.Hold(rule, key+" (LOCK record superseded)", x.Pos(), "inside the comparison of a LOCK record with the live hold")
+			default:
+				r.Violate(rule, key+" (other reason)", x.Pos(), "a record that is not a LOCK record is reported gone although a hold with its id exists on the path: compaction drops a partial release / an unlock that a later re-acquire under the same id depends on, and the next restart rebuilds the hold with the wrong depth or the terms of an earlier acquisition", x.St.Trace)
+			}
+		},
+	})
+	ex.Run(fn, nil)
+	if ex.Imprecise != "" {
+		r.Fail("C16/R8: %s", ex.Imprecise)
+	}
+	if n == 0 {
+		r.Fail("C16/R8: HasLock has no false return")
+	}
 }
